@@ -70,6 +70,10 @@ def jobs(tier):
     B(lambda: BusSyncInst("BusSynchronizer(8,t=128)/R<=3", 8, 128, ratio_max=3), cycles=20000)
     B(lambda: BusSyncInst("BusSynchronizer(5,t=19)/R<=3", 5, 19, ratio_max=3), cycles=20000)
     B(lambda: BusSyncInst("BusSynchronizer(32,t=11)/R<=1", 32, 11, ratio_max=1), cycles=20000)
+    # free-running clocks with a fixed phase offset, output clock faster than the input clock
+    B(lambda: BusSyncInst("BusSynchronizer(8,t=128)/i:o=30:10 phase 1", 8, 128, pattern=(30, 10, 1)), cycles=12000)
+    B(lambda: BusSyncInst("BusSynchronizer(4,t=19)/i:o=14:10 phase 2", 4, 19, pattern=(14, 10, 2)), cycles=12000)
+    B(lambda: BusSyncInst("BusSynchronizer(8,t=19)/i:o=10:30 phase 7", 8, 19, pattern=(10, 30, 7)), cycles=12000)
     B(lambda: PulseSyncInst("PulseSynchronizer/spaced pulses"), cycles=20000)
     return J
 
